@@ -1062,6 +1062,24 @@ theorem trans_C04_grant_is_ret (r : T_v2_sharedResource_grant) (s : LSt) (cl : L
   · simp only [hc, if_false]
     refine ⟨⟨fun _ => by omega, fun _ => trivial⟩, fun _ => by omega⟩
 
+/-! ### Batcher: `Flush()` -/
+
+/-- `Flush()` (also what every FlushInterval tick calls) leaves exactly one cycle request for the loop: requests
+made while one is pending - during a cycle, a pause, before Start - coalesce (the machine's `flushReq := true`) -/
+theorem trans_C02_C08_Flush_v2 (tok : Nat) (h : tok ≤ 1) : v2_Flush ⟨tok⟩ = ⟨1⟩ := by
+  have : tok = 0 ∨ tok = 1 := by omega
+  rcases this with h0 | h0 <;> simp [v2_Flush, h0]
+
+theorem trans_C02_C08_Flush_v1 (tok : Nat) (h : tok ≤ 1) : v1_Flush ⟨tok⟩ = ⟨1⟩ := by
+  have : tok = 0 ∨ tok = 1 := by omega
+  rcases this with h0 | h0 <;> simp [v1_Flush, h0]
+
+theorem trans_C02_C08_Flush_is_flushCall (c : BCfg) (s s' : St) (h : step c s .flushCall = some s') :
+    v2_Flush ⟨if s.flushReq then 1 else 0⟩ = ⟨if s'.flushReq then 1 else 0⟩ := by
+  simp only [step] at h
+  cases h
+  cases s.flushReq <;> simp [v2_Flush]
+
 /-! ### non-vacuity: the translated functions on concrete values (also a readable trace of what they compute) -/
 
 example : v2_incTarget ⟨7⟩ 5 = ⟨12⟩ ∧ v2_incTarget ⟨7⟩ (-5) = ⟨2⟩ ∧ v2_incTarget ⟨7⟩ (-9) = ⟨0⟩ ∧ v2_incTarget ⟨7⟩ 0 = ⟨7⟩ := by decide
